@@ -47,8 +47,33 @@ fn image32(w: usize, h: usize) -> Vec<u8> {
     (0..w * h * 4).map(|i| if i % 4 == 3 { 0xFF } else { (i * 7 + 3) as u8 }).collect()
 }
 
+/// images of 2^15 .. 2^17 pixels (products that overflow 16 bits, one side up to 65535) painted whole into a large
+/// window, at an offset, and clipped by a small one
+fn big_cases() -> Vec<Case> {
+    let mut v = vec![];
+    for (iw, ih) in [(256u16, 256u16), (255, 257), (300, 250), (512, 128), (181, 362), (65535, 1), (1, 65535), (32768, 2), (2, 32768), (128, 256), (64, 64)] {
+        for bpp in [16u16, 32] {
+            for kind in [0usize, 1, 3, 5, 6] {
+                for (win_w, win_h, l, t) in [(4usize, 4usize, 0u16, 0u16), (300, 260, 0, 0), (301, 261, 1, 1), (520, 2, 3, 0)] {
+                    let r = l + (iw.min((win_w as u16) - l) - 1);
+                    let b = t + (ih.min((win_h as u16) - t) - 1);
+                    v.push(Case { win_w, win_h, l, t, r, b, img_w: iw, img_h: ih, bpp, kind });
+                }
+            }
+        }
+    }
+    v
+}
+
 impl C19 {
+    fn n_small(&self) -> u64 {
+        let nc = self.coords.len() as u64;
+        self.dims.len() as u64 * nc * nc * nc * nc * 36 * 3 * DATA_KINDS.len() as u64
+    }
     fn case(&self, mut i: u64) -> Case {
+        if i >= self.n_small() {
+            return big_cases().swap_remove((i - self.n_small()) as usize);
+        }
         let nc = self.coords.len() as u64;
         let kind = (i % DATA_KINDS.len() as u64) as usize;
         i /= DATA_KINDS.len() as u64;
@@ -104,8 +129,13 @@ fn make_data(c: &Case) -> (Vec<u8>, bool, Option<Vec<u32>>) {
                     for row in (0..h).rev() {
                         pixels.extend_from_slice(&img[row * w..(row + 1) * w]);
                     }
-                    let o = Order { kind: Kind::ColorImage, form: Form::MegaMega, run: (w * h) as u32, fg: 0, a: 0, b: 0, masks: vec![], pixels };
-                    let mut d = rle::emit_all(&[o]);
+                    // one order for the whole image while its run fits 16 bits, else one order per scan line
+                    let orders: Vec<Order> = if w * h <= 65535 {
+                        vec![Order { kind: Kind::ColorImage, form: Form::MegaMega, run: (w * h) as u32, fg: 0, a: 0, b: 0, masks: vec![], pixels }]
+                    } else {
+                        pixels.chunks(w).map(|row| Order { kind: Kind::ColorImage, form: Form::MegaMega, run: w as u32, fg: 0, a: 0, b: 0, masks: vec![], pixels: row.to_vec() }).collect()
+                    };
+                    let mut d = rle::emit_all(&orders);
                     if c.kind == 5 {
                         d.pop();
                         return (d, true, None);
@@ -217,15 +247,14 @@ impl Prop for C19 {
         Ok(())
     }
     fn n_cases(&self) -> u64 {
-        let nc = self.coords.len() as u64;
-        self.dims.len() as u64 * nc * nc * nc * nc * 36 * 3 * DATA_KINDS.len() as u64
+        self.n_small() + big_cases().len() as u64
     }
     fn describe(&self, idx: u64) -> Value {
         let c = self.case(idx);
         json!({"idx": idx, "window": [c.win_w, c.win_h], "rect": {"left": c.l, "top": c.t, "right": c.r, "bottom": c.b}, "image": [c.img_w, c.img_h], "bpp": c.bpp, "data": DATA_KINDS[c.kind]})
     }
     fn rule(&self) -> String {
-        "cases = (window WxH in 1..3 squared (1..4 in thorough), rectangle left/top/right/bottom each in {0..5, 65535} ({0..6, 32768, 65535} in thorough) (inside, outside, inverted), image width/height each in 0..5, depth in {16,32,15}, data in {raw exact, raw one byte short, raw 4 bytes long, valid RLE, garbage, RLE truncated, raw rows without their 4-byte padding (16 bpp) / half the rows (32 bpp), compressed streams whose run overruns the first / a later scan line}) — the full product. Executed on the unmodified fast_bitmap_transfer under a red-zone allocator. Oracle: no panic; canary zones of every heap block intact; when the call succeeds for a rectangle inside the window with a known image, the buffer equals the reference blit (rows top..bottom, columns left..right from image rows 0.., columns 0..) and every other cell keeps its sentinel; when the call fails the buffer may hold a prefix of the rows but never a foreign value. Non-trivial: the call reached the copy loop (decompression succeeded).".into()
+        "cases = (window WxH in 1..3 squared (1..4 in thorough), rectangle left/top/right/bottom each in {0..5, 65535} ({0..6, 32768, 65535} in thorough) (inside, outside, inverted), image width/height each in 0..5, depth in {16,32,15}, data in {raw exact, raw one byte short, raw 4 bytes long, valid RLE, garbage, RLE truncated, raw rows without their 4-byte padding (16 bpp) / half the rows (32 bpp), compressed streams whose run overruns the first / a later scan line}) — the full product; plus images of 2^14..2^17 pixels (256x256, 255x257, 300x250, 512x128, 181x362, 65535x1, 1x65535, 32768x2, 2x32768, 128x256, 64x64) at 16 and 32 bpp as raw exact / raw short / valid RLE / truncated RLE / unpadded rows, painted whole into a 300x260 window, at offset (1,1), clipped by a 4x4 and by a 520x2 window. Executed on the unmodified fast_bitmap_transfer under a red-zone allocator. Oracle: no panic; canary zones of every heap block intact; when the call succeeds for a rectangle inside the window with a known image, the buffer equals the reference blit (rows top..bottom, columns left..right from image rows 0.., columns 0..) and every other cell keeps its sentinel; when the call fails the buffer may hold a prefix of the rows but never a foreign value. Non-trivial: the call reached the copy loop (decompression succeeded).".into()
     }
     fn assumptions(&self) -> Vec<String> {
         vec![
